@@ -828,3 +828,298 @@ pub fn normalise_create(alpha: &Alphabet, ops: &mut [Op]) {
         }
     }
 }
+
+// ------------------------------------------------------------------------------------------------
+// Deterministic boundary family (identical for every seed; generated before the random stream)
+// ------------------------------------------------------------------------------------------------
+pub struct BCase {
+    pub class: &'static str,
+    pub name: String,
+    pub base: BaseDb,
+    pub ops: Vec<Op>,
+}
+
+fn std_base() -> BaseDb {
+    // node 0: field partition {0,2}, map partition {1,4}, sorted partition {1,3,5}; node 1: field {1};
+    // nodes 2 and 3 hold nothing (fresh ids for create_node)
+    let mut b = BaseDb::new();
+    let mut id = 0u32;
+    let mut part = |n: usize, p: usize, ranks: &[usize]| {
+        let mut m = BTreeMap::new();
+        for r in ranks {
+            id += 1;
+            m.insert(*r, (id, (*r % 4) + 1));
+        }
+        b.insert((n, p), m);
+    };
+    part(0, 0, &[0, 2]);
+    part(0, 1, &[1, 4]);
+    part(0, 2, &[1, 3, 5]);
+    part(1, 0, &[1]);
+    b
+}
+
+pub fn boundary_cases() -> Vec<BCase> {
+    let mut out: Vec<BCase> = Vec::new();
+    let base = std_base();
+    let mut vid = 1000u32;
+    let mut set = |k: K3| -> Op {
+        vid += 1;
+        Op::Set(k, vid, (vid % 5) as usize)
+    };
+    const MAX: u32 = u32::MAX;
+    let kdb: K3 = (0, 2, 3);
+    let kab: K3 = (0, 2, 2);
+    let knew: K3 = (3, 2, 2);
+    let create3 = |keys: &[usize]| Op::CreateNode(3, vec![(2, keys.iter().map(|r| (*r, 500 + *r as u32, *r % 3)).collect())]);
+
+    // A. every tracked-substate state x every follow-up operation
+    let states: Vec<(&str, Vec<Op>, K3)> = vec![
+        ("untracked_db", vec![], kdb),
+        ("untracked_absent", vec![], kab),
+        ("ro_some", vec![Op::Get(kdb)], kdb),
+        ("ro_none", vec![Op::Get(kab)], kab),
+        ("rexw_upd", vec![Op::Get(kdb), set(kdb)], kdb),
+        ("rexw_del", vec![Op::Remove(kdb)], kdb),
+        ("rexw_del_then_set", vec![Op::Remove(kdb), set(kdb)], kdb),
+        ("rnexw", vec![Op::Get(kab), set(kab)], kab),
+        ("rnexw_removed", vec![Op::Get(kab), set(kab), Op::Remove(kab)], kab),
+        ("wo_upd_over_db", vec![set(kdb)], kdb),
+        ("wo_upd_absent", vec![set(kab)], kab),
+        ("wo_del_over_db", vec![set(kdb), Op::Remove(kdb)], kdb),
+        ("wo_del_absent", vec![set(kab), Op::Remove(kab)], kab),
+        ("new", vec![create3(&[2, 4])], knew),
+        ("garbage_from_new", vec![create3(&[2, 4]), Op::Remove(knew)], knew),
+        ("garbage_from_new_then_set", vec![create3(&[2, 4]), Op::Remove(knew), set(knew)], knew),
+        ("garbage_after_revert", vec![set(kab), Op::Revert], kab),
+    ];
+    for (sname, pre, k) in &states {
+        let k = *k;
+        let follow: Vec<(&str, Vec<Op>)> = vec![
+            ("none", vec![]),
+            ("get", vec![Op::Get(k)]),
+            ("set", vec![set(k), Op::Get(k)]),
+            ("remove", vec![Op::Remove(k), Op::Get(k)]),
+            ("remove_twice", vec![Op::Remove(k), Op::Remove(k)]),
+            ("info", vec![Op::Info(k)]),
+            ("scan_keys_max", vec![Op::ScanKeys(k.0, k.1, MAX)]),
+            ("scan_keys_1", vec![Op::ScanKeys(k.0, k.1, 1)]),
+            ("drain_max", vec![Op::Drain(k.0, k.1, MAX), Op::Get(k)]),
+            ("drain_1", vec![Op::Drain(k.0, k.1, 1), Op::ScanKeys(k.0, k.1, MAX)]),
+            ("scan_sorted_max", vec![Op::ScanSorted(k.0, k.1, MAX)]),
+            ("scan_sorted_1", vec![Op::ScanSorted(k.0, k.1, 1)]),
+            ("force_write_set_revert", vec![Op::ForceWrite(k), set(k), Op::Revert, Op::Get(k)]),
+            ("force_write_remove_revert", vec![Op::ForceWrite(k), Op::Remove(k), Op::Revert, Op::Get(k), Op::ScanSorted(k.0, k.1, MAX)]),
+            ("revert_get", vec![Op::Revert, Op::Get(k)]),
+            ("revert_set", vec![Op::Revert, set(k), Op::Get(k)]),
+            ("delete_partition", vec![Op::DeletePartition(k.0, k.1)]),
+        ];
+        for (fname, post) in follow {
+            let mut ops = pre.clone();
+            ops.extend(post);
+            out.push(BCase { class: "bf_state_followup", name: format!("{}/{}", sname, fname), base: base.clone(), ops });
+        }
+    }
+
+    // B. limits around every count, on partitions of every shape
+    let mixed: Vec<Op> = vec![set((0, 2, 0)), set((0, 2, 3)), Op::Remove((0, 2, 5)), Op::Get((0, 2, 4)), set((0, 2, 2))];
+    let shapes: Vec<(&str, Vec<Op>, usize, usize, Vec<u32>)> = vec![
+        ("mixed_track_and_db", mixed.clone(), 0, 2, vec![0, 1, 2, 3, 4, 5, 6, MAX]),
+        ("db_only", vec![], 0, 2, vec![0, 1, 2, 3, 4, MAX]),
+        ("empty_partition", vec![], 1, 2, vec![0, 1, MAX]),
+        ("untracked_node", vec![], 2, 2, vec![0, 1, MAX]),
+        ("new_node", vec![create3(&[0, 2, 4]), Op::Remove((3, 2, 2))], 3, 2, vec![0, 1, 2, 3, 4, MAX]),
+        ("all_db_entries_deleted", vec![Op::Remove((0, 2, 1)), Op::Remove((0, 2, 3)), Op::Remove((0, 2, 5))], 0, 2, vec![0, 1, MAX]),
+        ("only_absent_reads_tracked", vec![Op::Get((0, 2, 0)), Op::Get((0, 2, 2)), Op::Get((0, 2, 4))], 0, 2, vec![0, 1, 2, 3, 4, MAX]),
+        ("track_after_all_db", vec![Op::Get((0, 2, 1)), set((0, 2, 4))], 0, 2, vec![0, 1, 2, 3, 4, 5, MAX]),
+        ("deletes_at_both_ends", vec![Op::Remove((0, 2, 1)), Op::Remove((0, 2, 5)), Op::Get((0, 2, 0))], 0, 2, vec![0, 1, 2, MAX]),
+        ("map_kind", vec![set((0, 1, 0)), Op::Remove((0, 1, 4))], 0, 1, vec![0, 1, 2, 3, MAX]),
+        ("field_kind", vec![set((0, 0, 1)), Op::Remove((0, 0, 0))], 0, 0, vec![0, 1, 2, 3, MAX]),
+    ];
+    for (sname, pre, n, p, limits) in &shapes {
+        for l in limits {
+            let mut kinds: Vec<(&str, Vec<Op>)> = vec![
+                ("scan_keys", vec![Op::ScanKeys(*n, *p, *l)]),
+                ("drain", vec![Op::Drain(*n, *p, *l), Op::ScanKeys(*n, *p, MAX), Op::Drain(*n, *p, MAX)]),
+            ];
+            if *p % 3 == 2 {
+                kinds.push(("scan_sorted", vec![Op::ScanSorted(*n, *p, *l)]));
+            }
+            for (kname, post) in kinds {
+                let mut ops = pre.clone();
+                ops.extend(post);
+                out.push(BCase { class: "bf_limits", name: format!("{}/{}/{}", sname, kname, l), base: base.clone(), ops });
+            }
+        }
+    }
+
+    // C. range_read keeps the maximum; look-ahead of the merge iterator
+    out.push(BCase {
+        class: "bf_range_read",
+        name: "small_large_small".into(),
+        base: base.clone(),
+        ops: vec![Op::ScanKeys(0, 2, 1), Op::ScanKeys(0, 2, MAX), Op::ScanKeys(0, 2, 1), Op::ScanSorted(0, 2, 2), Op::ScanSorted(0, 2, 0), Op::Drain(0, 2, 1), Op::Drain(0, 2, 0)],
+    });
+    out.push(BCase {
+        class: "bf_range_read",
+        name: "sorted_lookahead".into(),
+        base: base.clone(),
+        ops: vec![set((0, 2, 4)), Op::ScanSorted(0, 2, 1), Op::ScanSorted(0, 2, 2), Op::ScanSorted(0, 2, 3), Op::ScanSorted(0, 2, 4)],
+    });
+
+    // D. create_node shapes
+    let creates: Vec<(&str, Vec<Op>)> = vec![
+        ("empty_node", vec![Op::CreateNode(3, vec![]), Op::Get(knew), Op::ScanKeys(3, 2, MAX)]),
+        ("empty_partition", vec![Op::CreateNode(3, vec![(2, vec![])]), Op::ScanSorted(3, 2, MAX), set(knew), Op::ScanSorted(3, 2, MAX)]),
+        ("three_partitions", vec![Op::CreateNode(3, vec![(0, vec![(1, 601, 0)]), (1, vec![(0, 602, 1), (5, 603, 2)]), (2, vec![(4, 604, 3)])]), Op::Drain(3, 1, 1), Op::ScanKeys(3, 0, MAX)]),
+        ("over_node_read_as_absent", vec![Op::Get(knew), Op::Get((3, 0, 0)), create3(&[2]), Op::Get(knew), Op::Get((3, 0, 0))]),
+        ("two_nodes_order", vec![Op::CreateNode(2, vec![(2, vec![(1, 611, 0)])]), create3(&[2]), set((2, 2, 3)), Op::Remove((3, 2, 2))]),
+        ("created_then_reverted", vec![create3(&[2, 4]), set((3, 2, 5)), Op::Revert, Op::Get(knew), create3(&[0]), Op::ScanKeys(3, 2, MAX)]),
+        ("over_existing_db_node_inadmissible", vec![Op::CreateNode(0, vec![(2, vec![(2, 621, 0)])]), Op::Get(kdb), Op::ScanSorted(0, 2, MAX)]),
+    ];
+    for (name, ops) in creates {
+        out.push(BCase { class: "bf_create", name: name.into(), base: base.clone(), ops });
+    }
+
+    // E. force_write / revert sequences
+    let forces: Vec<(&str, Vec<Op>)> = vec![
+        ("untracked_panics", vec![Op::ForceWrite(kdb)]),
+        ("untracked_partition_exists_panics", vec![Op::Get((0, 2, 1)), Op::ForceWrite(kdb)]),
+        ("twice_same_key_last_wins", vec![Op::Get(kdb), set(kdb), Op::ForceWrite(kdb), set(kdb), Op::ForceWrite(kdb), set(kdb), Op::Revert, Op::Get(kdb)]),
+        ("two_keys_two_partitions_two_nodes", vec![Op::Get(kdb), Op::Get((0, 0, 0)), Op::Get((1, 0, 1)), set(kdb), set((0, 0, 0)), set((1, 0, 1)),
+            Op::ForceWrite((1, 0, 1)), Op::ForceWrite((0, 0, 0)), Op::ForceWrite(kdb), set(kdb), Op::Revert, Op::Get(kdb), Op::Get((0, 0, 0)), Op::Get((1, 0, 1))]),
+        ("revert_without_force_write", vec![Op::Get(kdb), set(kdb), Op::Remove((0, 2, 1)), Op::Revert, Op::ScanSorted(0, 2, MAX)]),
+        ("double_revert", vec![Op::Get(kdb), set(kdb), Op::ForceWrite(kdb), Op::Revert, Op::Revert, Op::Get(kdb)]),
+        ("revert_force_revert", vec![Op::Get(kdb), set(kdb), Op::Revert, set(kdb), Op::ForceWrite(kdb), set(kdb), Op::Revert, Op::Get(kdb)]),
+        ("force_write_of_absent_read", vec![Op::Get(kab), Op::ForceWrite(kab), set(kab), Op::Revert, Op::Get(kab)]),
+        ("force_write_of_delete", vec![Op::Remove(kdb), Op::ForceWrite(kdb), set(kdb), Op::Revert, Op::Get(kdb)]),
+        ("force_write_on_new_node_revert_panics", vec![create3(&[2]), Op::ForceWrite(knew), Op::Revert]),
+        ("create_over_force_written_node_revert_panics", vec![Op::Get(knew), Op::ForceWrite(knew), create3(&[2]), Op::Revert]),
+        ("finalisation_after_revert", vec![Op::Get((0, 0, 0)), set((0, 0, 0)), Op::ForceWrite((0, 0, 0)), set((0, 2, 0)), Op::Revert,
+            Op::Get((0, 0, 0)), set((0, 0, 0)), Op::Get((1, 0, 1)), set((1, 0, 1)), set((0, 1, 2)), Op::DeletePartition(0, 1)]),
+    ];
+    for (name, ops) in forces {
+        out.push(BCase { class: "bf_force_revert", name: name.into(), base: base.clone(), ops });
+    }
+
+    // F. delete_partition: reset then delta, duplicates, untracked nodes, order
+    let dels: Vec<(&str, Vec<Op>)> = vec![
+        ("reset_only", vec![Op::DeletePartition(0, 2)]),
+        ("reset_then_sets_and_deletes", vec![Op::DeletePartition(0, 2), set((0, 2, 0)), Op::Remove(kdb), set((0, 2, 5)), Op::Get((0, 2, 1))]),
+        ("writes_then_reset", vec![set((0, 2, 0)), Op::Remove(kdb), Op::DeletePartition(0, 2), set((0, 2, 4))]),
+        ("same_partition_twice", vec![Op::DeletePartition(0, 2), Op::DeletePartition(0, 1), Op::DeletePartition(0, 2)]),
+        ("untracked_node_first_in_updates", vec![set((0, 0, 0)), Op::DeletePartition(2, 1), set((2, 0, 0))]),
+        ("reset_and_delta_partitions_of_one_node", vec![set((0, 0, 1)), set((0, 1, 0)), Op::DeletePartition(0, 1), set((0, 2, 0))]),
+        ("reset_of_new_node_partition", vec![create3(&[2, 4]), Op::DeletePartition(3, 2), Op::Remove(knew)]),
+        ("reset_survives_revert", vec![Op::DeletePartition(0, 2), set((0, 2, 0)), Op::Revert]),
+    ];
+    for (name, ops) in dels {
+        out.push(BCase { class: "bf_delete_partition", name: name.into(), base: base.clone(), ops });
+    }
+
+    // G. order of nodes / partitions / substates in the final updates
+    let orders: Vec<(&str, Vec<Op>)> = vec![
+        ("nodes_by_first_touch", vec![Op::Get((1, 0, 1)), set((0, 2, 4)), set((1, 0, 0)), set((0, 0, 1))]),
+        ("partitions_by_first_touch", vec![set((0, 2, 0)), set((0, 0, 1)), set((0, 1, 2)), set((0, 2, 5)), set((0, 2, 2))]),
+        ("read_only_node_between_written_nodes", vec![set((1, 0, 0)), Op::Get((2, 0, 0)), set((0, 0, 1))]),
+    ];
+    for (name, ops) in orders {
+        out.push(BCase { class: "bf_order", name: name.into(), base: base.clone(), ops });
+    }
+    out
+}
+
+/// Runs the boundary family: correspondence cases + oracle + per-class and per-feature counters with floors.
+pub fn run_boundary(alpha: &Alphabet, report: &mut Report, cw: &mut CaseWriter) {
+    let cases = boundary_cases();
+    let mut per_class: BTreeMap<&'static str, u64> = BTreeMap::new();
+    for (i, bc) in cases.iter().enumerate() {
+        let mut ops = bc.ops.clone();
+        normalise_create(alpha, &mut ops);
+        let db = build_db(alpha, &bc.base);
+        let (outs, fin) = run_impl(alpha, &db, &ops);
+        let used = &ops[..outs.len()];
+        *per_class.entry(bc.class).or_insert(0) += 1;
+        report.count(bc.class);
+        report.case(&format!("{}:{}", bc.class, bc.name), true);
+        // feature counters measured on the implementation's behaviour
+        for (op, (r, evs)) in used.iter().zip(outs.iter()) {
+            match (op, r) {
+                (Op::ForceWrite(_), Res::Panic) => report.count("bf_seen_force_write_panic"),
+                (Op::Revert, Res::Panic) => report.count("bf_seen_revert_panic"),
+                (Op::ScanKeys(_, _, l), Res::Keys(ks)) => {
+                    if ks.len() as u64 == *l as u64 { report.count("bf_seen_scan_keys_limit_reached_exactly"); }
+                    if ks.is_empty() && *l > 0 { report.count("bf_seen_scan_keys_empty"); }
+                    if *l == 0 { report.count("bf_seen_limit_zero"); }
+                }
+                (Op::Drain(_, _, l), Res::KVs(kvs)) => {
+                    if kvs.len() as u64 == *l as u64 && *l > 0 { report.count("bf_seen_drain_limit_reached_exactly"); }
+                    if evs.iter().any(|e| matches!(e, Ev::ReadDb(..))) && evs.iter().any(|e| matches!(e, Ev::TrackUpd(..))) {
+                        report.count("bf_seen_drain_from_track_and_db");
+                    }
+                }
+                (Op::ScanSorted(_, _, l), Res::KVs(kvs)) => {
+                    if kvs.len() as u64 == *l as u64 && *l > 0 { report.count("bf_seen_scan_sorted_limit_reached_exactly"); }
+                    if evs.len() > kvs.len() { report.count("bf_seen_scan_sorted_lookahead_or_shadowed_read"); }
+                }
+                (Op::Info(_), Res::Info(x)) => report.count(&format!("bf_seen_info_{}", x)),
+                _ => {}
+            }
+        }
+        if let Some(f) = &fin {
+            for (_, _, parts) in &f.nodes {
+                for (_, rr, subs) in parts {
+                    if *rr > 0 { report.count("bf_seen_range_read_nonzero"); }
+                    for (_, t) in subs {
+                        let tag = if t.starts_with("TRExW") {
+                            if t.ends_with("WDelete") { "TRExW_Delete" } else { "TRExW_Update" }
+                        } else if t.starts_with("TWo") {
+                            if t.ends_with("WDelete") { "TWo_Delete" } else { "TWo_Update" }
+                        } else {
+                            t.split(' ').next().unwrap()
+                        };
+                        report.count(&format!("bf_final_{}", tag));
+                    }
+                }
+            }
+            for (_, parts) in &f.updates {
+                for (_, s) in parts {
+                    if s.starts_with("PReset []") { report.count("bf_upd_reset_empty"); }
+                    else if s.starts_with("PReset") { report.count("bf_upd_reset_with_values"); }
+                    if s.contains("UDelete") { report.count("bf_upd_delete"); }
+                    if s.contains("USet") { report.count("bf_upd_set"); }
+                }
+            }
+            if !f.new_nodes.is_empty() { report.count("bf_new_nodes_reported"); }
+        }
+        let o = oracle(alpha, &bc.base, &db, used, &outs, &fin);
+        if o.stopped_inadmissible.is_some() { report.count("bf_oracle_stopped_inadmissible"); }
+        if let Some((class, what)) = o.failure {
+            report.oracle_failure(1_000_000 + i, &class, &format!("boundary {}:{}: {}", bc.class, bc.name, what),
+                serde_json::json!({"case": case_coq(&bc.base, used, &outs, &fin)}));
+        }
+        cw.push(case_coq(&bc.base, used, &outs, &fin));
+    }
+    // every class and every feature must keep appearing (deterministic family: exact minimums)
+    for (c, n) in &per_class {
+        report.floor(c, *n);
+    }
+    report.floor("bf_state_followup", 17 * 17);
+    report.floor("bf_limits", 100);
+    report.floor("bf_range_read", 2);
+    report.floor("bf_create", 7);
+    report.floor("bf_force_revert", 12);
+    report.floor("bf_delete_partition", 8);
+    report.floor("bf_order", 3);
+    for k in [
+        "bf_seen_force_write_panic", "bf_seen_revert_panic", "bf_seen_scan_keys_limit_reached_exactly", "bf_seen_scan_keys_empty",
+        "bf_seen_limit_zero", "bf_seen_drain_limit_reached_exactly", "bf_seen_drain_from_track_and_db",
+        "bf_seen_scan_sorted_limit_reached_exactly", "bf_seen_scan_sorted_lookahead_or_shadowed_read",
+        "bf_seen_info_0", "bf_seen_info_1", "bf_seen_info_2", "bf_seen_range_read_nonzero",
+        "bf_final_TNew", "bf_final_TRoNone", "bf_final_TRoSome", "bf_final_TRExW_Update", "bf_final_TRExW_Delete", "bf_final_TRNexW",
+        "bf_final_TWo_Update", "bf_final_TWo_Delete", "bf_final_TGarbage",
+        "bf_upd_reset_empty", "bf_upd_reset_with_values", "bf_upd_delete", "bf_upd_set", "bf_new_nodes_reported", "bf_oracle_stopped_inadmissible",
+    ] {
+        report.floor(k, 1);
+    }
+}
